@@ -12,6 +12,15 @@ VSP = "deep.processor.variable_set_processor.VariableSetProcessor"
 BFS = "deep.processor.bfs"
 
 
+def enumerate_index(loop):
+    """Name of the index variable if the loop is `for i, x in enumerate(<iterable>)` (start 0), else None."""
+    it = loop.iter
+    if isinstance(it, ast.Call) and norm(it.func) == "enumerate" and len(it.args) == 1 and not it.keywords and \
+            isinstance(loop.target, ast.Tuple) and len(loop.target.elts) == 2 and isinstance(loop.target.elts[0], ast.Name):
+        return loop.target.elts[0].id
+    return None
+
+
 def run(ctx: Ctx, tier: str) -> Result:
     res = Result("C05")
     res.explanation = (
@@ -90,6 +99,8 @@ def run(ctx: Ctx, tier: str) -> Result:
                     good_init = len(inits) == 1 and isinstance(inits[0].value, ast.Constant) and inits[0].value.value == 0
                     good_inc = len(incs) == 1 and isinstance(incs[0].op, ast.Add) and isinstance(incs[0].value, ast.Constant) \
                         and incs[0].value.value == 1 and paths.block_position(p, incs[0])[0] is paths.block_position(p, paths.stmt_of(p, a))[0]
+                    if enumerate_index(lp) == cnt.id and not inits and not incs:
+                        good_init = good_inc = True      # the index of enumerate(): starts at 0, one step per element
                     if good_init and good_inc:
                         done = True
                         res.ok("C05.SEQ", {"append under": "not (%s)" % norm(test), "counter": cnt.id})
